@@ -11,19 +11,29 @@ namespace ParamVerif.TimeDyn
 /-- Opaque functions.  `hash name seed t` stands for
 `numbergen.Hash(name + str(seed), 2)(t, param.random_seed)`
 (numbergen/__init__.py `TimeAwareRandomState._initialize_random_state`, `_hash_and_seed`),
-`draw h` for `random.Random(h).uniform(lbound, ubound)` (`UniformRandom.__call__`),
-`stream sid k` for the k-th value of a generator that ignores time. -/
-structure Env (H V : Type) where
+`reseed h` for the state of `random_generator` after `random_generator.seed(h)`,
+`next st` for drawing one number (`random_generator.uniform(lbound, ubound)`, `UniformRandom.__call__`):
+the value and the advanced state; `init k` for the state a generator of kind `k` is constructed with. -/
+structure Env (H S V : Type) where
   hash : String → Int → Int → H
-  draw : H → V
-  stream : Nat → Nat → V
+  reseed : H → S
+  next : S → V × S
+  init : Nat → S
 
-/-- value of a time-dependent generator: `gen name seed t = draw (hash name seed t)` -/
-def Env.tdVal {H V} (env : Env H V) (name : String) (seed : Int) (t : Int) : V :=
-  env.draw (env.hash name seed t)
+/-- value of a time-dependent generator at time `t`: reseed from `(name, seed, t)`, then draw -/
+def Env.tdVal {H S V} (env : Env H S V) (name : String) (seed : Int) (t : Int) : V :=
+  (env.next (env.reseed (env.hash name seed t))).1
+
+/-- the time `numbergen.TimeSampledFn` evaluates its function at: the latest sample point
+`k * period - offset ≤ now` (Python `%` with a positive divisor is non-negative, as `Int.emod`).
+src: numbergen/__init__.py TimeSampledFn.__call__ -/
+def sampleTime (now period offset : Int) : Int :=
+  (now + offset) - (now + offset) % period - offset
 
 inductive GenKind where
   | td (name : String) (seed : Int)     -- numbergen RandomDistribution(name=, seed=, time_dependent=True)
+  | sampled (name : String) (seed : Int) (period offset : Int)
+      -- numbergen TimeSampledFn(fn=RandomDistribution(name=, seed=, time_dependent=True), period=, offset=)
   | stream (sid : Nat)                  -- any callable that ignores time (time_dependent=False, counters)
   deriving DecidableEq, Repr
 
@@ -36,8 +46,9 @@ inductive Exc where
 `saved` is `zip(_saved_Dynamic_last, _saved_Dynamic_time)`, most recent first: the two
 Python lists are reset / appended / popped together at their only three use sites
 (`_initialize_generator`, `_state_push`, `_state_pop`); the harness reports both lengths. -/
-structure Gen (V : Type) where
+structure Gen (S V : Type) where
   kind : GenKind
+  rng : Option S := none           -- state of the generator's random stream; none = as constructed (`env.init`)
   calls : Nat                      -- values produced so far (position in the stream)
   last : Option V                  -- _Dynamic_last   (None = placeholder)
   lastTime : Option Int            -- _Dynamic_time; none = the marker `_NO_TIME`, unequal to every time
@@ -46,11 +57,11 @@ structure Gen (V : Type) where
   deriving DecidableEq, Repr
 
 /-- src: param/parameters.py Dynamic._initialize_generator -/
-def Gen.fresh {V} (k : GenKind) (fail : Option (Nat × Exc) := none) : Gen V :=
+def Gen.fresh {S V} (k : GenKind) (fail : Option (Nat × Exc) := none) : Gen S V :=
   { kind := k, calls := 0, last := none, lastTime := none, saved := [], fail := fail }
 
 /-- src: param/parameters.py Dynamic._initialize_generator (on an existing callable) -/
-def Gen.reinit {V} (g : Gen V) : Gen V :=
+def Gen.reinit {S V} (g : Gen S V) : Gen S V :=
   { g with last := none, lastTime := none, saved := [] }
 
 /-- what `Parameter.__get__` finds: a plain value, a generator of the heap, or (instances only)
@@ -75,12 +86,15 @@ structure Clock where
   inContext : Option Bool                   -- the attribute does not exist before the first __enter__
   deriving DecidableEq, Repr
 
+/-- what a balanced `__enter__`/`__exit__` pair leaves behind: only `in_context` is (re)assigned -/
+def Clock.touch (c : Clock) : Clock := { c with inContext := some (!c.pushed.isEmpty) }
+
 def Clock.init : Clock := { time := 0, timestep := 1, untl := none, pushed := [], inContext := none }
 
-structure World (V : Type) where
+structure World (S V : Type) where
   dynTD : Bool                 -- param.Dynamic.time_dependent
   clock : Clock                -- param.Dynamic.time_fn
-  gens : List (Gen V)          -- heap of generator objects, index = creation order
+  gens : List (Gen S V)          -- heap of generator objects, index = creation order
   ptypes : List PType          -- the class's Dynamic parameters, definition order
   defaults : List Slot         -- class-level values (never `inherit`)
   insts : List (List Slot)     -- per instance: `_param__private.values`
@@ -124,11 +138,11 @@ inductive Res (V : Type) where
   | raised (e : Exc)
   deriving DecidableEq, Repr
 
-variable {H V : Type}
+variable {H S V : Type}
 
 /-- `obj._param__private.values.get(name, param.default)`
 src: param/parameterized.py Parameter.__get__, Parameters.get_value_generator -/
-def resolve (w : World V) (tg : Target) (p : Nat) : Option Slot :=
+def resolve (w : World S V) (tg : Target) (p : Nat) : Option Slot :=
   match tg with
   | .cls => w.defaults[p]?
   | .inst i =>
@@ -142,13 +156,22 @@ def resolve (w : World V) (tg : Target) (p : Nat) : Option Slot :=
 
 /-- calling the generator.  src: numbergen RandomDistribution.__call__ (`_hash_and_seed` at the
 current time, then draw) / an arbitrary callable -/
-def Gen.produce (env : Env H V) (g : Gen V) (now : Int) : V × Gen V :=
+def Gen.produce (env : Env H S V) (g : Gen S V) (now : Int) : V × Gen S V :=
   match g.kind with
-  | .td name seed => (env.tdVal name seed now, { g with calls := g.calls + 1 })
-  | .stream sid => (env.stream sid g.calls, { g with calls := g.calls + 1 })
+  | .td name seed =>
+    -- `_hash_and_seed()`: whatever state the stream was in, it is re-seeded from (name, seed, now)
+    let r := env.next (env.reseed (env.hash name seed now))
+    (r.1, { g with calls := g.calls + 1, rng := some r.2 })
+  | .sampled name seed period offset =>
+    -- the wrapped function is called at the sample time (inside `with time_fn`)
+    let r := env.next (env.reseed (env.hash name seed (sampleTime now period offset)))
+    (r.1, { g with calls := g.calls + 1, rng := some r.2 })
+  | .stream sid =>
+    let r := env.next (match g.rng with | some st => st | none => env.init sid)
+    (r.1, { g with calls := g.calls + 1, rng := some r.2 })
 
 /-- src: param/parameters.py Dynamic._produce_value -/
-def produceValue (env : Env H V) (dynTD : Bool) (now : Int) (g : Gen V) (force : Bool) : Option V × Gen V :=
+def produceValue (env : Env H S V) (dynTD : Bool) (now : Int) (g : Gen S V) (force : Bool) : Option V × Gen S V :=
   if !dynTD then
     -- (time_fn is None) or (not self.time_dependent)
     let r := g.produce env now
@@ -160,13 +183,13 @@ def produceValue (env : Env H V) (dynTD : Bool) (now : Int) (g : Gen V) (force :
     (g.last, g)
 
 /-- the exception the generator raises if it is called now -/
-def Gen.failsNow (g : Gen V) : Option Exc :=
+def Gen.failsNow (g : Gen S V) : Option Exc :=
   match g.fail with
   | some (k, e) => if k == g.calls then some e else none
   | none => none
 
 /-- whether `_produce_value` calls the generator -/
-def willCall (dynTD : Bool) (now : Int) (g : Gen V) (force : Bool) : Bool :=
+def willCall (dynTD : Bool) (now : Int) (g : Gen S V) (force : Bool) : Bool :=
   !dynTD || force || some now != g.lastTime
 
 /-- src: param/parameters.py Number.__get__ -> _validate of a dynamically generated value -/
@@ -177,7 +200,7 @@ def validateRead (pt : PType) (v : Option V) : Res V :=
 
 /-- reading through one generator object.
 src: param/parameters.py Dynamic._produce_value as called by __get__ / _force -/
-def readGen (env : Env H V) (dynTD : Bool) (now : Int) (pt : PType) (g : Gen V) (force : Bool) : Res V × Gen V :=
+def readGen (env : Env H S V) (dynTD : Bool) (now : Int) (pt : PType) (g : Gen S V) (force : Bool) : Res V × Gen S V :=
   match (if willCall dynTD now g force then g.failsNow else none) with
   | some e =>
     -- `value = _produce_value(gen)` raises: neither `_Dynamic_last` nor `_Dynamic_time` is assigned
@@ -187,8 +210,14 @@ def readGen (env : Env H V) (dynTD : Bool) (now : Int) (pt : PType) (g : Gen V) 
     -- `_force` is called on the Parameter directly: no Number validation there
     ((if force then .ok (.val r.1) else validateRead pt r.1), r.2)
 
+/-- `TimeSampledFn.__call__` visits its sample time inside `with self.time_fn`: on the way out the
+time, timestep, until and the stack are as before, and `in_context` has been (re)assigned -/
+def entersCtx (dynTD : Bool) (now : Int) (g : Gen S V) (force : Bool) : Bool :=
+  willCall dynTD now g force && g.failsNow.isNone &&
+  (match g.kind with | .sampled _ _ _ _ => true | _ => false)
+
 /-- src: param/parameters.py Dynamic.__get__ (force = false), Dynamic._force (force = true) -/
-def readSlot (env : Env H V) (w : World V) (tg : Target) (p : Nat) (force : Bool) : Res V × World V :=
+def readSlot (env : Env H S V) (w : World S V) (tg : Target) (p : Nat) (force : Bool) : Res V × World S V :=
   match resolve w tg p, w.ptypes[p]? with
   | some (.const v), some _ => (.ok (.const v), w)
   | some (.gen gi), some pt =>
@@ -196,11 +225,12 @@ def readSlot (env : Env H V) (w : World V) (tg : Target) (p : Nat) (force : Bool
     | none => (.raised .malformed, w)
     | some g =>
       let r := readGen env w.dynTD w.clock.time pt g force
-      (r.1, { w with gens := w.gens.set gi r.2 })
+      (r.1, { w with gens := w.gens.set gi r.2,
+                     clock := if entersCtx w.dynTD w.clock.time g force then w.clock.touch else w.clock })
   | _, _ => (.raised .malformed, w)
 
 /-- src: param/parameters.py Dynamic._inspect -/
-def inspectSlot (w : World V) (tg : Target) (p : Nat) : Res V :=
+def inspectSlot (w : World S V) (tg : Target) (p : Nat) : Res V :=
   match resolve w tg p with
   | some (.const v) => .ok (.const v)
   | some (.gen gi) =>
@@ -210,7 +240,7 @@ def inspectSlot (w : World V) (tg : Target) (p : Nat) : Res V :=
   | _ => .raised .malformed
 
 /-- the generators `_state_push/_state_pop` visit, in `param.objects('existing')` order -/
-def instGens (w : World V) (i : Nat) : Option (List Nat) :=
+def instGens (w : World S V) (i : Nat) : Option (List Nat) :=
   match w.insts[i]? with
   | none => none
   | some sl => some ((List.range sl.length).filterMap fun p =>
@@ -218,10 +248,10 @@ def instGens (w : World V) (i : Nat) : Option (List Nat) :=
       | some (.gen g) => some g
       | _ => none)
 
-def Gen.push (g : Gen V) : Gen V := { g with saved := (g.last, g.lastTime) :: g.saved }
+def Gen.push (g : Gen S V) : Gen S V := { g with saved := (g.last, g.lastTime) :: g.saved }
 
 /-- src: param/parameterized.py Parameters._state_push (loop body for a dynamic value) -/
-def pushGens : List Nat → List (Gen V) → List (Gen V)
+def pushGens : List Nat → List (Gen S V) → List (Gen S V)
   | [], hp => hp
   | g :: gs, hp =>
     match hp[g]? with
@@ -230,7 +260,7 @@ def pushGens : List Nat → List (Gen V) → List (Gen V)
 
 /-- src: param/parameterized.py Parameters._state_pop: `list.pop()` on an empty list raises
 IndexError after the generators visited earlier have already been restored -/
-def popGens : List Nat → List (Gen V) → Res V × List (Gen V)
+def popGens : List Nat → List (Gen S V) → Res V × List (Gen S V)
   | [], hp => (.ok .unit, hp)
   | g :: gs, hp =>
     match hp[g]? with
@@ -242,7 +272,7 @@ def popGens : List Nat → List (Gen V) → Res V × List (Gen V)
 
 /-- src: param/parameterized.py Parameters._setup_params / _instantiate_param: deep copy of every
 callable default (cache attributes included), other values stay on the class -/
-def instantiate : List Slot → List (Gen V) → List Slot × List (Gen V)
+def instantiate : List Slot → List (Gen S V) → List Slot × List (Gen S V)
   | [], hp => ([], hp)
   | s :: ss, hp =>
     match s with
@@ -254,18 +284,20 @@ def instantiate : List Slot → List (Gen V) → List Slot × List (Gen V)
 
 /-- the value being assigned: a new generator object, one that already exists, or a plain number.
 src: param/parameters.py Dynamic.__set__ -> _initialize_generator(val, obj) -/
-def srcSlot (w : World V) : Src → Option (Slot × List (Gen V))
+def srcSlot (w : World S V) : Src → Option (Slot × List (Gen S V))
   | .const v => some (.const v, w.gens)
   | .fresh (.td n s) f =>
     -- numbergen TimeAware._check_time_fn asserts that Dynamic.time_dependent is on
     if w.dynTD then some (.gen w.gens.length, w.gens ++ [Gen.fresh (.td n s) f]) else none
+  | .fresh (.sampled n s p o) f =>
+    if w.dynTD then some (.gen w.gens.length, w.gens ++ [Gen.fresh (.sampled n s p o) f]) else none
   | .fresh (.stream sid) f => some (.gen w.gens.length, w.gens ++ [Gen.fresh (.stream sid) f])
   | .existing g =>
     match w.gens[g]? with
     | none => none
     | some x => some (.gen g, w.gens.set g x.reinit)
 
-def storeSlot (w : World V) (tg : Target) (p : Nat) (slot : Slot) (hp : List (Gen V)) : Res V × World V :=
+def storeSlot (w : World S V) (tg : Target) (p : Nat) (slot : Slot) (hp : List (Gen S V)) : Res V × World S V :=
   match tg with
   | .cls => (.ok .unit, { w with gens := hp, defaults := w.defaults.set p slot })
   | .inst i =>
@@ -274,7 +306,7 @@ def storeSlot (w : World V) (tg : Target) (p : Nat) (slot : Slot) (hp : List (Ge
     | some sl => (.ok .unit, { w with gens := hp, insts := w.insts.set i (sl.set p slot) })
 
 /-- src: param/parameters.py Dynamic.__set__ -/
-def assignSlot (w : World V) (tg : Target) (p : Nat) (src : Src) : Res V × World V :=
+def assignSlot (w : World S V) (tg : Target) (p : Nat) (src : Src) : Res V × World S V :=
   if p ≥ w.ptypes.length then (.raised .malformed, w) else
   match srcSlot w src with
   | none => (.raised .malformed, w)
@@ -292,7 +324,7 @@ def Clock.exit (c : Clock) : Option Clock :=
     some { time := t, timestep := s, untl := u, pushed := rest, inContext := some (!rest.isEmpty) }
 
 /-- leaving the `with` block.  src: param/parameters.py Time.__exit__ -/
-def exitCtx (rw : Res V × World V) : Res V × World V :=
+def exitCtx (rw : Res V × World S V) : Res V × World S V :=
   match rw.2.clock.exit with
   | none => (.raised .indexError, rw.2)
   | some c =>
@@ -303,7 +335,7 @@ def exitCtx (rw : Res V × World V) : Res V × World V :=
 
 mutual
 /-- one statement -/
-def runOp (env : Env H V) : Op → World V → Res V × World V
+def runOp (env : Env H S V) : Op → World S V → Res V × World S V
   | .setTime t, w => (.ok .unit, { w with clock := { w.clock with time := t } })
   | .advance d, w => (.ok .unit, { w with clock := { w.clock with time := w.clock.time + d } })
   | .setStep s, w => (.ok .unit, { w with clock := { w.clock with timestep := s } })
@@ -329,7 +361,7 @@ def runOp (env : Env H V) : Op → World V → Res V × World V
     -- __enter__; body; __exit__ runs on every path out of the block
     exitCtx (runOps env body { w with clock := w.clock.enter })
 /-- a block: stops at the first exception -/
-def runOps (env : Env H V) : List Op → World V → Res V × World V
+def runOps (env : Env H S V) : List Op → World S V → Res V × World S V
   | [], w => (.ok .unit, w)
   | o :: os, w =>
     match runOp env o w with
@@ -382,22 +414,22 @@ structure Ev (V : Type) where
   gens : List Nat                           -- push / pop: the generators visited
   deriving Repr
 
-def cachesOf (w : World V) : List (Option V × Option Int × Nat) :=
+def cachesOf (w : World S V) : List (Option V × Option Int × Nat) :=
   w.gens.map fun g => (g.last, g.lastTime, g.saved.length)
 
-def touchedOf (w : World V) : Op → Option Touched
+def touchedOf (w : World S V) : Op → Option Touched
   | .read tg p | .inspect tg p | .force tg p =>
     match resolve w tg p with
     | some (.gen g) => (w.gens[g]?).map fun x => { g := g, kind := x.kind }
     | _ => none
   | _ => none
 
-def gensOf (w : World V) : Op → List Nat
+def gensOf (w : World S V) : Op → List Nat
   | .push i | .pop i => (instGens w i).getD []
   | _ => []
 
 mutual
-def traceOp (env : Env H V) : Op → World V → List (Ev V)
+def traceOp (env : Env H S V) : Op → World S V → List (Ev V)
   | .ctx body, w =>
     let w0 := { w with clock := w.clock.enter }
     let (r, w') := runOp env (.ctx body) w
@@ -407,7 +439,7 @@ def traceOp (env : Env H V) : Op → World V → List (Ev V)
   | o, w =>
     let (r, w') := runOp env o w
     [{ kind := .op, tag := o.tag, res := r, clock := w'.clock.snap, caches := cachesOf w', touched := touchedOf w o, gens := gensOf w o }]
-def traceOps (env : Env H V) : List Op → World V → List (Ev V)
+def traceOps (env : Env H S V) : List Op → World S V → List (Ev V)
   | [], _ => []
   | o :: os, w =>
     match runOp env o w with
